@@ -22,6 +22,14 @@ def run(prog, rep):
     # the offsets computed above describe the FILE only if every table change is also written to its slot
     rep.attempt(lambda: M.dirty_entry(ct, rep, rule="table-pairing"))
     rep.attempt(lambda: M.slot_position(ct, rep, rule="table-pairing/slot"))
+    # entry.size / the end-of-data offsets are taken from nBytes: they describe the bytes only if nBytes == bytes written
+    from ..codecs import Codecs
+    from .c02 import size_identity
+    cd = Codecs(prog)
+    cd.flag_errors(rep)
+    rep.attempt(size_identity, prog, cd, rep, with_consumed=False)
+    rep.attempt(lambda: M.parse_on_enter(ct, rep))
+    rep.attempt(lambda: M.flush_on_exit(ct, rep))
     rep.not_decided += ["the global non-overlap invariant over concrete histories and sizes",
                         "foreign files that are already inconsistent"]
     rep.trusted += ["file objects: seek/write/truncate semantics of CPython binary files"]
